@@ -85,7 +85,9 @@
 (declare-fun unjson.message.Mesg.2 (Bytes) Str)
 
 ; @lit lit.notify "notify"
+; @lit lit.invoke "invoke"
 (declare-const lit.notify Str)
+(declare-const lit.invoke Str)
 ; NULL-able blob columns as client data: absent == empty
 (define-fun hdrs ((b OptBytes)) SMap (ite (is-bnone b) smap.empty (jsonmap (bval b))))
 (define-fun data ((b OptBytes)) Bytes (ite (is-bnone b) bytes.empty (bval b)))
